@@ -3,7 +3,7 @@
    "lines"; [c17_check] runs the model on the same declaration and compares. *)
 From Coq Require Import String List NArith Bool.
 From J5V.lib Require Import Outcome Corr Strcase.
-From J5V.model Require Import Entity.
+From J5V.model Require Import Entity EntityClient.
 Import ListNotations.
 Local Open Scope bool_scope.
 Local Open Scope N_scope.
@@ -21,8 +21,9 @@ Definition file_pkg (pkg : bytes) (file : N) : bytes :=
 
 Definition qualify (pkg p n : bytes) : bytes := (match p with [] => pkg | _ => p end) ++ [46] ++ n.
 
-(* 2: field — [proto name; json name; type name; j5 kind; tenant]
-               [number; proto type; repeated; required; flatten; in oneof; primary; has tenant; filterable]
+(* 2: field — [proto name; json name; type name; j5 kind; tenant; foreign package; foreign entity]
+               [number; proto type; repeated; required; flatten; in oneof; primary; has tenant; filterable;
+                has foreign key; proto3 optional]
    3: default filters of the field above (only when filterable) *)
 Definition field_lines (pkg : bytes) (in_oneof : bool) (i : N) (f : ofield) : list line :=
   let '(pt, tn, kind) := match f_type f with
@@ -32,10 +33,13 @@ Definition field_lines (pkg : bytes) (in_oneof : bool) (i : N) (f : ofield) : li
     | TEnum p n => (14, qualify pkg p n, bs "enum")
     end in
   (2, [to_snake (f_json f); f_json f; tn; (if f_repeated f then bs "array" else kind);
-       match f_tenant f with Some t => t | None => [] end],
+       match f_tenant f with Some t => t | None => [] end;
+       match f_foreign f with Some p => fst p | None => [] end;
+       match f_foreign f with Some p => snd p | None => [] end],
       [i; pt; b2n (f_repeated f); b2n (f_required f); b2n (f_flatten f); b2n in_oneof;
        b2n (f_primary f); b2n (match f_tenant f with Some _ => true | None => false end);
-       b2n (match f_filter f with Some _ => true | None => false end)])
+       b2n (match f_filter f with Some _ => true | None => false end);
+       b2n (match f_foreign f with Some _ => true | None => false end); b2n (f_optional f)])
   :: match f_filter f with Some l => [(3, l, [])] | None => [] end.
 
 Fixpoint fields_lines (pkg : bytes) (in_oneof : bool) (i : N) (l : list ofield) : list line :=
@@ -57,15 +61,16 @@ Definition msg_lines (pkg : bytes) (file : N) (m : omsg) : list line :=
 Definition enum_lines (pkg name : bytes) (vs : list (bytes * N)) : list line :=
   (4, [pkg ++ [46] ++ name], []) :: map (fun v => (5, [fst v], [snd v])) vs.
 
-(* 6: service [full name; annotation strings] [file; annotation kind; role]
+(* 6: service [full name; annotation strings; audience/default auth (always none: acceptCommands
+      replaces the options a command declares)] [file; annotation kind; role]
    7: method [name; input; output; path] [verb; state_query flag] *)
 Definition svc_lines (pkg : bytes) (file : N) (s : osvc) : list line :=
   let fp := file_pkg pkg file in
   let abs (n : bytes) := match n with 46 :: r => r | _ => fp ++ [46] ++ n end in
   (match sv_ann s with
-   | SQuery en => (6, [fp ++ [46] ++ sv_name s; en; []], [file; 1; 0])
-   | SCommand en => (6, [fp ++ [46] ++ sv_name s; en; []], [file; 2; 0])
-   | STopic tn role en => (6, [fp ++ [46] ++ sv_name s; tn; en], [file; 3; role])
+   | SQuery en => (6, [fp ++ [46] ++ sv_name s; en; []; []], [file; 1; 0])
+   | SCommand en => (6, [fp ++ [46] ++ sv_name s; en; []; []], [file; 2; 0])
+   | STopic tn role en => (6, [fp ++ [46] ++ sv_name s; tn; en; []], [file; 3; role])
    end)
   :: map (fun m => (7, [mt_name m; abs (mt_in m); abs (mt_out m); mt_path m], [mt_verb m; mt_sq m]))
          (sv_methods s).
@@ -79,14 +84,48 @@ Definition file_lines (pkg : bytes) (file : N) (cs : list component) : list line
 Definition flatten (pkg : bytes) (cs : list component) : list line :=
   file_lines pkg 0 cs ++ file_lines pkg 1 cs ++ file_lines pkg 2 cs.
 
+(* the client API's StateEntity:
+   8: [name; full name; schema name; query service] ; 9: primary keys ; 10: command services ;
+   11: events ; 12: query method [name; path] [verb] ; 13: command method [service; name; path] [verb] *)
+Definition client_lines (c : client_entity) : list line :=
+  [ (8, [ce_name c; ce_full_name c; ce_schema c; ce_query c], []);
+    (9, ce_primary_key c, []);
+    (10, map fst (ce_commands c), []);
+    (11, ce_events c, []) ]
+  ++ map (fun m => (12, [fst m; snd m], [1])) (ce_query_methods c)
+  ++ flat_map (fun s => map (fun m => (13, [fst s; fst (fst m); snd m], [snd (fst m)])) (snd s)) (ce_commands c).
+
+
+(* one source file: its entity declarations (same package), whether it compiled, the descriptor
+   dump, whether the client API could be derived, the StateEntity dump in declaration order *)
+Definition file_pkg_of (es : list entity) : bytes := match es with e :: _ => e_pkg e | [] => [] end.
+
+(* the grouping model (EntityClient.v) run on the compiled components agrees with the direct
+   view of each declared entity, in declaration order *)
+Definition grouping_eqb (a b : grouping) : bool :=
+  bytes_eqb (g_name a) (g_name b) && bytes_eqb (g_schema a) (g_schema b)
+  && list_eqb bytes_eqb (g_primary_key a) (g_primary_key b)
+  && list_eqb bytes_eqb (g_events a) (g_events b)
+  && bytes_eqb (g_query a) (g_query b)
+  && list_eqb bytes_eqb (g_query_methods a) (g_query_methods b)
+  && list_eqb (fun x y => bytes_eqb (fst x) (fst y) && list_eqb bytes_eqb (snd x) (snd y))
+              (g_commands a) (g_commands b).
+Definition grouping_ok (es : list entity) (cs : list component) : bool :=
+  match client_of (file_pkg_of es) cs with
+  | Some gs => list_eqb grouping_eqb gs (map grouping_view es)
+  | None => false
+  end.
+
 Inductive c17case :=
-| EC (e : entity) (ok : bool) (lines : list line).
+| EC (es : list entity) (ok : bool) (lines : list line) (client_ok : bool) (clines : list line).
 
 Definition c17_check (c : c17case) : bool :=
   match c with
-  | EC e ok lines =>
-      match compile e with
-      | Ok cs => ok && list_eqb line_eqb (flatten (e_pkg e) cs) lines
+  | EC es ok lines cok clines =>
+      match compile_all es with
+      | Ok cs => ok && list_eqb line_eqb (flatten (file_pkg_of es) cs) lines
+                 && cok && list_eqb line_eqb (flat_map (fun e => client_lines (client_view e)) es) clines
+                 && grouping_ok es cs
       | Err _ => negb ok
       | _ => false
       end
@@ -102,9 +141,12 @@ Fixpoint first_diff (i : N) (a b : list line) : option (N * option line * option
   end.
 Definition c17_diff (c : c17case) :=
   match c with
-  | EC e ok lines =>
-      match compile e with
-      | Ok cs => first_diff 0 (flatten (e_pkg e) cs) lines
+  | EC es ok lines cok clines =>
+      match compile_all es with
+      | Ok cs => match first_diff 0 (flatten (file_pkg_of es) cs) lines with
+                 | Some d => Some d
+                 | None => first_diff 1000 (flat_map (fun e => client_lines (client_view e)) es) clines
+                 end
       | _ => None
       end
   end.
